@@ -44,6 +44,7 @@ type kvStep struct {
 
 type kvCase struct {
 	Weights []int    `json:"w"` // one per shard, 1..4 shards
+	P       int      `json:"p,omitempty"` // client configuration profile of every shard (kvProfiles)
 	Steps   []kvStep `json:"steps"`
 }
 
@@ -65,19 +66,71 @@ type kvCtxKey struct{}
 // (never as failed) and not judged further.
 const kvStall = 2 * time.Second
 
-func kvSetup(t *testing.T) {
-	kvOnce.Do(func() {
-		logx.Disable()
-		kvRenew(t)
-	})
+// kvProfile: the configuration of every shard of a case (redis.Config inside the
+// kv.Config): node or cluster type (a single miniredis acting as a one-node cluster),
+// password or not. The servers of a profile require `pass`; the store's shards AND the
+// raw go-redis reference client are configured with `cfgPass`; cfgPass != pass is the
+// must-fail class. Every profile owns its servers, because the wrapper caches one client
+// per address for the life of the process.
+type kvProfile struct {
+	name          string
+	typ           string
+	pass, cfgPass string
 }
 
-// kvRenew puts fresh servers (new addresses) behind the store and the reference.
-// Used at start-up and after a stalled step: a command that timed out on the client
+const kvSecret = "c12-s3cret"
+
+var kvProfiles = []kvProfile{
+	{"node", redis.NodeType, "", ""},
+	{"node+pass", redis.NodeType, kvSecret, kvSecret},
+	{"cluster", redis.ClusterType, "", ""},
+	{"cluster+pass", redis.ClusterType, kvSecret, kvSecret},
+	{"mustfail:node-missing-pass", redis.NodeType, kvSecret, ""},
+}
+
+func (p kvProfile) mustFail() bool { return p.pass != p.cfgPass }
+
+type kvSet struct {
+	shards [kvMaxShards]*miniredis.Miniredis
+	refSrv *miniredis.Miniredis
+	ref    *red.Client
+}
+
+var (
+	kvSets = make([]*kvSet, len(kvProfiles))
+	kvCur  = -1 // profile whose servers are loaded into kvShards / kvRefSrv / kvRef
+)
+
+func kvSetup(t *testing.T) { kvUse(t, 0) }
+
+// kvUse makes the servers of profile p the current ones (created at first use).
+func kvUse(t *testing.T, p int) {
+	kvOnce.Do(logx.Disable)
+	if kvCur >= 0 && kvSets[kvCur] != nil {
+		*kvSets[kvCur] = kvSet{kvShards, kvRefSrv, kvRef}
+	}
+	kvCur = p
+	if kvSets[p] == nil {
+		kvSets[p] = &kvSet{}
+		kvShards, kvRefSrv, kvRef = kvSets[p].shards, nil, nil
+		kvRenew(t)
+		return
+	}
+	kvShards, kvRefSrv, kvRef = kvSets[p].shards, kvSets[p].refSrv, kvSets[p].ref
+}
+
+func kvShardConf(i int) redis.Config {
+	p := kvProfiles[kvCur]
+	return redis.Config{Host: kvShards[i].Addr(), Type: p.typ, Pass: p.cfgPass}
+}
+
+// kvRenew puts fresh servers (new addresses) behind the current profile.
+// Used at first use and after a stalled step: a command that timed out on the client
 // side may still be executed by the old server later; it must not reach the servers
 // of the following cases. The old servers are simply abandoned.
 func kvRenew(t *testing.T) {
 	var err error
+	p := kvProfiles[kvCur]
 	if kvRefSrv != nil {
 		// The old servers stay up (abandoned): closing them would let the OS hand their
 		// ports to new servers, and the wrapper's process-wide client manager still
@@ -88,18 +141,35 @@ func kvRenew(t *testing.T) {
 		if kvShards[i], err = miniredis.Run(); err != nil {
 			t.Fatalf("miniredis shard: %v", err)
 		}
+		if p.pass != "" {
+			kvShards[i].RequireAuth(p.pass)
+		}
 		// warm the shared wrapper client of this address
-		for n := 0; !redis.New(kvShards[i].Addr()).Ping(); n++ {
-			if n > 50 {
-				t.Fatalf("cannot reach shard %d", i) // inconclusive run, not a verdict
+		// (through Config.NewRedis, the path kv.New takes: the wrapper caches ONE client
+		// per address, built from the first *Redis that uses it). If the wrapper cannot
+		// reach the shard although raw go-redis with the right password can, the histories
+		// will report it; if raw go-redis cannot either, the run is inconclusive.
+		for n := 0; !kvShardConf(i).NewRedis().Ping() && !p.mustFail(); n++ {
+			if n > 20 {
+				probe := red.NewClient(&red.Options{Addr: kvShards[i].Addr(), Password: p.pass})
+				perr := probe.Ping(context.Background()).Err()
+				probe.Close()
+				if perr != nil {
+					t.Fatalf("shard %d (%s) unreachable: %v", i, p.name, perr)
+				}
+				break
 			}
-			time.Sleep(100 * time.Millisecond)
+			time.Sleep(50 * time.Millisecond)
 		}
 	}
 	if kvRefSrv, err = miniredis.Run(); err != nil {
 		t.Fatalf("miniredis reference: %v", err)
 	}
-	kvRef = red.NewClient(&red.Options{Addr: kvRefSrv.Addr()})
+	if p.pass != "" {
+		kvRefSrv.RequireAuth(p.pass)
+	}
+	kvRef = red.NewClient(&red.Options{Addr: kvRefSrv.Addr(), Password: p.cfgPass})
+	*kvSets[kvCur] = kvSet{kvShards, kvRefSrv, kvRef}
 }
 
 type kvEnv struct {
@@ -122,7 +192,7 @@ func (e *kvEnv) newStore() {
 	var conf kv.Config
 	for i, w := range e.c.Weights {
 		conf = append(conf, cache.NodeConfig{
-			Config: redis.Config{Host: kvShards[i].Addr(), Type: redis.NodeType},
+			Config: kvShardConf(i),
 			Weight: w,
 		})
 	}
@@ -311,12 +381,14 @@ func kvShow(s kvStep) string {
 }
 
 func kvInterp(t *testing.T, c kvCase) (v kit.Verdict) {
-	kvSetup(t)
-	if len(c.Weights) < 1 || len(c.Weights) > kvMaxShards {
+	if len(c.Weights) < 1 || len(c.Weights) > kvMaxShards || c.P < 0 || c.P >= len(kvProfiles) {
 		v.Excluded = true
 		return v
 	}
+	kvUse(t, c.P)
+	prof := kvProfiles[c.P]
 	e := &kvEnv{c: c, classes: map[string]bool{}, types: map[string]bool{}}
+	e.classes["conf:"+prof.name] = true
 	e.reset()
 	e.classes[fmt.Sprintf("shards:%d", len(c.Weights))] = true
 	defer func() {
@@ -327,7 +399,7 @@ func kvInterp(t *testing.T, c kvCase) (v kit.Verdict) {
 			}
 		}
 		e.classes[fmt.Sprintf("shards-holding-keys-at-end:%d", used)] = true
-		v.NonTrivial = e.ncmd >= 10 && len(e.types) >= 3 && e.hits >= 1
+		v.NonTrivial = e.ncmd >= 10 && len(e.types) >= 3 && (e.hits >= 1 || prof.mustFail())
 		for k := range e.classes {
 			v.Classes = append(v.Classes, k)
 		}
@@ -379,7 +451,7 @@ func (e *kvEnv) step(s kvStep) string {
 	// reports an error. Everything about keys on the failing shard (and Del's count) is
 	// UNSPECIFIED. The store is rebuilt before and after such a step (fresh per-node
 	// breakers), so that the error replies of the step cannot make a breaker reject.
-	if s.B > 0 && s.B <= len(e.c.Weights) && !dead && len(s.K) > 0 {
+	if s.B > 0 && s.B <= len(e.c.Weights) && !dead && len(s.K) > 0 && !kvProfiles[e.c.P].mustFail() {
 		f := s.B - 1
 		own := e.owner()
 		var healthy, faulted []string
@@ -458,6 +530,12 @@ func (e *kvEnv) step(s kvStep) string {
 		e.classes[fmt.Sprintf("ctx-dead:%d", s.D)] = true
 		e.classes["deadctx:"+s.C] = true
 	}
+	if s.C == "Del" && kvProfiles[e.c.P].mustFail() {
+		// one failure PER KEY on the shards' breakers within a single call: fresh
+		// breakers before and after, so that "at most 4 failures per instance" holds
+		e.newStore()
+		defer e.newStore()
+	}
 	before := e.counts()
 	got, gerr := ent.wrap(e.store, ctx, s)
 	defer e.noteErr(gerr)
@@ -471,6 +549,9 @@ func (e *kvEnv) step(s kvStep) string {
 		e.classes["reply:server-error"] = true
 	}
 	noneTouched := func() string {
+		if !e.countable() {
+			return ""
+		}
 		after := e.counts()
 		for i := 1; i < len(after); i++ {
 			if d := after[i] - before[i]; d != 0 {
@@ -484,6 +565,14 @@ func (e *kvEnv) step(s kvStep) string {
 			return fmt.Sprintf("dead context (%v): store returned (%s, %q), go-redis returns the context's error", ctx.Err(), kvCanon(got, false), kvErrStr(gerr))
 		}
 		return noneTouched()
+	}
+	if s.C == "Del" && kvProfiles[e.c.P].mustFail() && !dead {
+		// rejected credentials: the store joins one error per key; it must fail and
+		// delete nothing (nothing can exist on such shards)
+		if gerr == nil || got.(int) != 0 {
+			return fmt.Sprintf("shards reject the credentials: Del returned (%v, %q)", got, kvErrStr(gerr))
+		}
+		return ""
 	}
 	if dead && s.C == "Del" {
 		// the statement is silent about the error of a multi-key delete (the store joins
@@ -508,7 +597,7 @@ func (e *kvEnv) step(s kvStep) string {
 	}
 	// a single-key command reaches exactly one shard, and that shard processes as
 	// many commands as the single server does (Del is sent per key by design)
-	if s.C != "Del" {
+	if s.C != "Del" && e.countable() {
 		after := e.counts()
 		touched, sum := 0, 0
 		for i := 1; i < len(after); i++ {
@@ -534,6 +623,10 @@ const kvBurstScript = `local x = 0 for i = 1, tonumber(ARGV[2]) do x = x + 1 end
 // commands, as many as the single server does, and the keyspaces must agree.
 func (e *kvEnv) burst(s kvStep) string {
 	k, loops := int(s.I[0]), s.I[1]
+	if kvProfiles[e.c.P].mustFail() {
+		e.classes["skipped:burst"] = true // 12..24 failures at once would rightly open a breaker
+		return ""
+	}
 	e.ncmd++
 	e.classes["cmd:burst"] = true
 	own := e.owner()
@@ -595,7 +688,7 @@ func (e *kvEnv) burst(s kvStep) string {
 		if i-1 == target {
 			want = after[0] - before[0]
 		}
-		if d != want {
+		if d != want && e.countable() {
 			return fmt.Sprintf("%d concurrent commands on keys of shard %d: shard %d processed %d commands, want %d (single server: %d)", k, target, i-1, d, want, after[0]-before[0])
 		}
 	}
@@ -607,6 +700,11 @@ func (e *kvEnv) burst(s kvStep) string {
 	}
 	return ""
 }
+
+// countable: the per-step command-counter oracles apply to the plain node profile only
+// (with a password every freshly dialled connection first sends AUTH; go-redis'
+// ClusterClient reloads CLUSTER SLOTS / COMMAND from background goroutines).
+func (e *kvEnv) countable() bool { return kvProfiles[e.c.P].name == "node" }
 
 // counts: processed-command counters, [0] = reference server, [1..] = shards.
 func (e *kvEnv) counts() []int {
@@ -697,6 +795,9 @@ func (g *kvG) small(lo, hi int) int64 { return int64(lo + g.uni(hi-lo+1)) }
 func kvGen(rt *rapid.T) kvCase {
 	g := &kvG{rt: rt, bit: rapid.Bool()}
 	var c kvCase
+	// shard configuration: 12/20 node, 4/20 node+pass, 1/20 cluster, 2/20 cluster+pass
+	// (a call through go-redis' ClusterClient costs about 10 node calls), 1/20 must-fail
+	c.P = []int{0, 0, 0, 0, 0, 0, 0, 0, 0, 0, 0, 0, 1, 1, 1, 1, 2, 3, 3, 4}[g.uni(20)]
 	ns := 1 + g.uni(kvMaxShards)
 	ws := []int{1, 10, 50, 100, 100, 150, 0}
 	positive := false
